@@ -60,6 +60,35 @@ def replay_case(c):
                 bad.append(("C02.relative-capture", dict(q="relative_capture(mix)", **where0), R[k].tolist(), np.asarray(est.relative_capture(mix)).tolist()))
             if not close(est.system_capture(X[k]), Q[k]) or not close(est.system_relative_capture(X[k]), R[k]):
                 bad.append(("C02.system-capture", dict(q="single-vector", **where0), Q[k].tolist(), np.asarray(est.system_capture(X[k])).tolist()))
+        # batches with more than two axes (a batch of batches of intensity vectors)
+        if len(recs) >= 2:
+            X3 = np.stack([X, X[::-1]])
+            for name, want in (("system_capture", np.stack([Q, Q[::-1]])), ("system_relative_capture", np.stack([R, R[::-1]]))):
+                got = getattr(est, name)(X3)
+                if not close(got, want):
+                    bad.append(("C02.system-capture" if name == "system_capture" else "C02.relative-capture",
+                                dict(q=name + "(3 axes)", **where0), want.tolist(), np.asarray(got).tolist()))
+        # a system registered before on its own, narrower array domain must leave no trace once this system is
+        # registered (A is computed once per registration from the estimator's own filters)
+        if c["dom"]:
+            eh = dreye.ReceptorEstimator(F.copy(), domain=np.array(dom, float).copy(), **kw)
+            try:
+                eh.register_system(S[:, 1:].copy(), domain=np.array(dom, float)[1:].copy())
+                eh.system_capture(X)
+                eh.capture(X[0] @ S[:, 1:], domain=np.array(dom, float)[1:].copy())
+                pre = True
+            except ValueError:
+                pre = False          # "Cannot equalize domains": the two grids are too coarse to intersect
+            if pre:
+                eh.register_system(S.copy(), lb=np.zeros(S.shape[0]), ub=np.full(S.shape[0], 4.0))
+                mixes = X @ S
+                for name, got, want in (("A", eh.A, est.A), ("system_capture", eh.system_capture(X), est.system_capture(X)),
+                                        ("system_relative_capture", eh.system_relative_capture(X), est.system_relative_capture(X)),
+                                        ("capture(mix)", eh.capture(mixes), est.capture(mixes)),
+                                        ("relative_capture(mix)", eh.relative_capture(mixes), est.relative_capture(mixes))):
+                    if not close(got, want, 0):
+                        bad.append(("C02.capture-matrix" if name == "A" else "C02.mixture", dict(q=name + " after own-domain system", **where0),
+                                    np.asarray(want).tolist(), np.asarray(got).tolist()))
         # adaptation to a background: spectrum and intensity vector.  The SAME estimator that has already answered
         # the queries above is re-adapted (anything cached by a query must not survive the adaptation), and a fresh
         # one is used as well.
